@@ -10,21 +10,28 @@ PID = "C14"
 PROBES = ["GET /r/a, authentication fails, conditions hold", "GET /r/a, authentication fails, conditions false",
           "GET /r/a, authentication succeeds, conditions hold", "GET /r/a, authentication succeeds, conditions false",
           "POST /r/a (path of the rule, method not: backtracking decides)", "GET /other (no rule)"]
-
-
-def strip(i):
-    """the implementation side reports the error class next to the verdict; it is evidence, not compared"""
-    if isinstance(i, dict) and "class" in i:
-        i = dict(i)
-        i.pop("class")
-    return i
-
-
 HARNESS_ENV = None   # set by run()/replay(): the harness keeps its scratch files under R.tmp
 
 
+def harness_env(R):
+    global HARNESS_ENV
+    HARNESS_ENV = dict(vlib.go_env(), TMPDIR=R.tmp)
+
+
 def run_impl(exe, cases):
+    """one harness process for the whole list: cases share the loaded configuration and the mechanism catalogue of
+    their default rule, every case has a rule factory of its own"""
     return vlib.run_cases([exe], cases, env=HARNESS_ENV)
+
+
+def strip(i):
+    """the implementation side reports error classes next to the verdicts; they are evidence, not compared"""
+    if not isinstance(i, dict):
+        return i
+    i = {k: v for k, v in i.items() if k != "class"}
+    if isinstance(i.get("loads"), list):
+        i["loads"] = [{k: v for k, v in l.items() if k != "class"} if isinstance(l, dict) else l for l in i["loads"]]
+    return i
 
 
 def verdicts(case, exe):
@@ -39,105 +46,124 @@ def agrees(i, m):
 
 
 def describe(case, i, m):
-    """which clause of the property the disagreement is about"""
+    """(text naming the clause of the property the disagreement is about, index of the rule, concrete?)"""
     i = strip(i)
     if not isinstance(i, dict) or "factory" not in i:
-        return "implementation side failed on the case: " + json.dumps(i)[:300], False
+        return "implementation side failed on the case: " + json.dumps(i)[:300], None, False
     if not isinstance(m, dict) or "spec" not in m:
-        return "model side failed on the case: " + json.dumps(m)[:300], False
+        return "model side failed on the case: " + json.dumps(m)[:300], None, False
     s = m["spec"]
-    why = m.get("stats", {}).get("reason", "")
+    st = m.get("stats", {})
     if i["factory"] != s["factory"]:
         if i["factory"] == "ok":
-            return f"a malformed default rule is accepted (specification: {why})", True
-        return "a well-formed configuration (default rule) is refused", True
-    if i["factory"] != "ok":
-        return "verdicts agree, details differ", False
-    if i.get("load") != s.get("load"):
-        if i.get("load") == "accepted":
-            return f"a malformed rule is accepted when its rule set is loaded (specification: rejected, {why})", True
-        return "a well-formed rule is rejected when its rule set is loaded", True
-    for k, (a, b) in enumerate(zip(i.get("probes", []), s.get("probes", []))):
-        if a != b:
-            fields = [f for f in ("rule", "calls", "fin", "ret", "perr", "upstream") if a.get(f) != b.get(f)]
-            if "rule" in fields and k == 4:
-                what = (f"backtracking setting is not the rule's own / the default rule's / off: "
-                        f"{PROBES[k]} is answered by '{a.get('rule')}', the property demands '{b.get('rule')}'")
-            else:
-                what = (f"the executed pipeline is not the stage-wise inherited one: probe '{PROBES[k]}' differs in "
-                        f"{fields}: executed {json.dumps({f: a.get(f) for f in fields})}, the property demands "
-                        f"{json.dumps({f: b.get(f) for f in fields})}")
-            return what, True
+            return (f"a malformed default rule is accepted (specification: {st.get('config_reason')})", None, True)
+        return "a well-formed configuration (default rule) is refused", None, True
+    for k, (a, b) in enumerate(zip(i.get("loads", []), s.get("loads", []))):
+        if a == b:
+            continue
+        why = st["rules"][k]["reason"] if k < len(st.get("rules", [])) else ""
+        nth = f"rule {k + 1} of {len(s['loads'])} loaded by the factory: " if len(s["loads"]) > 1 else ""
+        if a.get("load") != b.get("load"):
+            if a.get("load") == "accepted":
+                return (nth + f"a malformed rule is accepted when its rule set is loaded (specification: rejected, "
+                              f"{why})", k, True)
+            return nth + "a well-formed rule is rejected when its rule set is loaded", k, True
+        for p, (x, y) in enumerate(zip(a.get("probes", []), b.get("probes", []))):
+            if x != y:
+                fields = [f for f in ("rule", "calls", "fin", "ret", "perr", "upstream") if x.get(f) != y.get(f)]
+                if "rule" in fields and p == 4:
+                    return (nth + f"backtracking setting is not the rule's own / the default rule's / off: "
+                                  f"{PROBES[p]} is answered by '{x.get('rule')}', the property demands "
+                                  f"'{y.get('rule')}'", k, True)
+                return (nth + f"the executed pipeline is not the stage-wise inherited one: probe '{PROBES[p]}' "
+                              f"differs in {fields}: executed {json.dumps({f: x.get(f) for f in fields})}, the "
+                              f"property demands {json.dumps({f: y.get(f) for f in fields})}", k, True)
+    if len(i.get("loads", [])) != len(s.get("loads", [])):
+        return "number of load results differs from the number of rules", None, False
     if vlib.canon(i) != vlib.canon(m["res"]):
-        return "implementation agrees with the specification but not with the model (model and specification differ)", False
-    return "no difference", False
+        return ("implementation agrees with the specification but not with the model (model and specification "
+                "differ)"), None, False
+    return None, None, False
 
 
-def shrink(exe, case):
-    """greedy structural shrinking: drop steps, conditions, overrides, settings, the default rule, as long as
-    implementation and specification still disagree"""
-    def fails(c):
-        i, m = verdicts(c, exe)
-        return not agrees(i, m)
+# ---------------------------------------------------------------------------------------------------------------
+# shrinking
 
+def candidates(cur):
+    """structurally smaller cases: fewer rules in the history, fewer steps, conditions, overrides, keys, settings,
+    no default rule, simpler spelling"""
+    cands = []
+    rules = cur["rules"]
+    for k in range(len(rules)):
+        if len(rules) > 1:
+            c = copy.deepcopy(cur)
+            del c["rules"][k]
+            cands.append(c)
+    if cur.get("default") is not None:
+        c = copy.deepcopy(cur)
+        c["default"] = None
+        cands.append(c)
+    owners = [("default", None)] if cur.get("default") else []
+    owners += [("rules", k) for k in range(len(rules))]
+    for owner, k in owners:
+        def get(c, owner=owner, k=k):
+            return c["default"] if owner == "default" else c["rules"][k]
+        o = get(cur)
+        for lst in ("execute", "on_error"):
+            steps = o.get(lst)
+            if not isinstance(steps, list):
+                continue
+            for n in range(len(steps)):
+                c = copy.deepcopy(cur)
+                del get(c)[lst][n]
+                cands.append(c)
+            for n, s in enumerate(steps):
+                oe = lst == "on_error"
+                if s.get("cond", "absent") != "absent":
+                    c = copy.deepcopy(cur)
+                    get(c)[lst][n] = gen_factory.step(s["keys"], "absent", s.get("cfg"), oe)
+                    cands.append(c)
+                if s.get("cfg") is not None:
+                    c = copy.deepcopy(cur)
+                    get(c)[lst][n] = gen_factory.step(s["keys"], s.get("cond", "absent"), None, oe)
+                    cands.append(c)
+                if len(s["keys"]) > 1:
+                    for key in s["keys"]:
+                        c = copy.deepcopy(cur)
+                        keys = {kk: vv for kk, vv in s["keys"].items() if kk != key}
+                        get(c)[lst][n] = gen_factory.step(keys, s.get("cond", "absent"), s.get("cfg"), oe)
+                        cands.append(c)
+        for lst in ("execute", "on_error"):
+            if lst in o and not o[lst] and lst == "on_error" and o[lst] is None:
+                c = copy.deepcopy(cur)          # `null` -> absent
+                del get(c)[lst]
+                cands.append(c)
+        if o.get("bt") is not None:
+            c = copy.deepcopy(cur)
+            get(c)["bt"] = None
+            cands.append(c)
+        if o.get("forward_to"):
+            c = copy.deepcopy(cur)
+            get(c)["forward_to"] = False
+            cands.append(c)
+    if cur["mode"] == "proxy":
+        c = copy.deepcopy(cur)
+        c["mode"] = "decision"
+        cands.append(c)
+    if cur.get("path", "yaml") != "yaml":
+        c = copy.deepcopy(cur)
+        c["path"] = "yaml"
+        cands.append(c)
+    return cands
+
+
+def shrink(exe, case, fails, budget=160):
     cur = copy.deepcopy(case)
     cur.pop("note", None)
-    budget = 120
     changed = True
     while changed and budget > 0:
         changed = False
-        cands = []
-        for owner in ("rule", "default"):
-            o = cur.get(owner)
-            if not o:
-                continue
-            for lst in ("execute", "on_error"):
-                steps = o.get(lst) or []
-                for k in range(len(steps)):
-                    c = copy.deepcopy(cur)
-                    del c[owner][lst][k]
-                    cands.append(c)
-                for k, s in enumerate(steps):
-                    if s.get("cond", "absent") != "absent":
-                        c = copy.deepcopy(cur)
-                        c[owner][lst][k] = gen_factory.step(s["keys"], "absent", s.get("cfg"), lst == "on_error")
-                        cands.append(c)
-                    if s.get("cfg") is not None:
-                        c = copy.deepcopy(cur)
-                        c[owner][lst][k] = gen_factory.step(s["keys"], s.get("cond", "absent"), None, lst == "on_error")
-                        cands.append(c)
-                    if len(s["keys"]) > 1:
-                        for key in s["keys"]:
-                            c = copy.deepcopy(cur)
-                            keys = {kk: vv for kk, vv in s["keys"].items() if kk != key}
-                            c[owner][lst][k] = gen_factory.step(keys, s.get("cond", "absent"), s.get("cfg"),
-                                                                lst == "on_error")
-                            cands.append(c)
-                if lst == "on_error" and lst in o and not steps:
-                    c = copy.deepcopy(cur)
-                    del c[owner][lst]
-                    cands.append(c)
-        if cur.get("default") is not None:
-            c = copy.deepcopy(cur)
-            c["default"] = None
-            cands.insert(0, c)
-            if cur["default"].get("bt") is not None:
-                c = copy.deepcopy(cur)
-                c["default"]["bt"] = None
-                cands.append(c)
-        if cur["rule"].get("bt") is not None:
-            c = copy.deepcopy(cur)
-            c["rule"]["bt"] = None
-            cands.append(c)
-        if cur["mode"] == "proxy":
-            c = copy.deepcopy(cur)
-            c["mode"] = "decision"
-            cands.append(c)
-        if cur["rule"].get("forward_to"):
-            c = copy.deepcopy(cur)
-            c["rule"]["forward_to"] = False
-            cands.append(c)
-        for c in cands:
+        for c in candidates(cur):
             budget -= 1
             if budget <= 0:
                 break
@@ -148,14 +174,72 @@ def shrink(exe, case):
     return cur
 
 
+def fails_alone(exe):
+    def f(c):
+        i, m = verdicts(c, exe)
+        return not agrees(i, m)
+    return f
+
+
+def fails_after(exe, prefix):
+    """the case disagrees when it runs in one harness process behind the given earlier cases"""
+    def f(c):
+        res = run_impl(exe, prefix + [c])
+        m = vlib.run_cases(vlib.driver_cmd(), [c])[0]
+        return len(res) == len(prefix) + 1 and not agrees(res[-1], m)
+    return f
+
+
+def env_key(c):
+    """cases with the same catalogue and default rule share configuration and mechanism catalogue in the harness"""
+    return vlib.canon({"default": c.get("default"), "cat": c.get("cat")})
+
+
 def slim(case):
     return {k: v for k, v in case.items() if k != "cat"}
 
 
-def harness_env(R):
-    global HARNESS_ENV
-    HARNESS_ENV = dict(vlib.go_env(), TMPDIR=R.tmp)
+def report(R, exe, cases, k, i, m):
+    """turn a disagreement seen in the batch run into a violation with a replay that reproduces it"""
+    c = cases[k]
+    alone = fails_alone(exe)
+    if alone(c):
+        sc = shrink(exe, c, alone)
+        si, sm = verdicts(sc, exe)
+        what, nth, concrete = describe(sc, si, sm)
+        if what is None:                     # cannot happen: the shrinker only keeps failing cases
+            what, concrete = "implementation and model disagree on the replay", False
+        return what, {"case": sc, "impl": si, "model": sm.get("res") if isinstance(sm, dict) else sm,
+                      "spec": sm.get("spec") if isinstance(sm, dict) else None,
+                      "kind": "impl-vs-spec" if concrete else "impl-vs-model"}, not concrete
+    # The case agrees when it runs alone: the result depends on what ran before it in the same process (the cases
+    # before it that share its configuration and mechanism catalogue).  Replay that history and shrink it.
+    what0, _, _ = describe(c, i, m)
+    key = env_key(c)
+    for prefix in ([p for p in cases[:k] if env_key(p) == key], cases[:k]):
+        if not fails_after(exe, prefix)(c):
+            continue
+        tests = [0]
 
+        def still(sub):
+            tests[0] += 1
+            return tests[0] <= 60 and fails_after(exe, sub)(c)
+        prefix = vlib.ddmin(prefix, still) if len(prefix) > 1 else prefix
+        sc = shrink(exe, c, fails_after(exe, prefix), budget=80)
+        res = run_impl(exe, prefix + [sc])
+        sm = vlib.run_cases(vlib.driver_cmd(), [sc])[0]
+        what, nth, concrete = describe(sc, res[-1], sm)
+        what = (f"history dependence across rule factories: after {len(prefix)} earlier case(s) in the same "
+                f"process, {what or what0}")
+        return what, {"history": prefix, "case": sc, "impl": res[-1],
+                      "model": sm.get("res") if isinstance(sm, dict) else sm,
+                      "spec": sm.get("spec") if isinstance(sm, dict) else None, "kind": "impl-vs-spec"}, False
+    return (f"not reproducible: the batch run disagreed ({what0}), the case alone and the replayed batch prefix agree "
+            f"— the implementation's answer depends on something outside the inputs",
+            {"case": c, "impl_in_batch": i, "model": m.get("res") if isinstance(m, dict) else m}, True)
+
+
+# ---------------------------------------------------------------------------------------------------------------
 
 def run(R):
     harness_env(R)
@@ -168,10 +252,10 @@ def run(R):
     corpus = vlib.load_corpus(PID)
     quick = R.tier == "quick"
     pool = gen_factory.gen_defaults(R.rng, 60 if quick else 500)
-    n = 3000 if quick else 40000
+    n = 1800 if quick else 24000
     cases = corpus + [gen_factory.gen_case(R.rng, pool) for _ in range(n)]
     n_random = len(cases) - len(corpus)
-    grids = gen_factory.grid_backtracking() + gen_factory.grid_steps() + gen_factory.grid_orderings(3 if quick else 5)
+    grids = gen_factory.small_scope(3 if quick else 5)
     cases += grids
     impl = run_impl(exe, cases)
     model = vlib.run_cases(vlib.driver_cmd(), cases)
@@ -185,100 +269,130 @@ def run(R):
     cond_only = collections.Counter()
     bt_combo = collections.Counter()
     modes = collections.Counter()
+    paths = collections.Counter()
+    spelled = collections.Counter()
+    hist_len = collections.Counter()
+    shared_refs = 0
     nontriv = set()
-    multi_key = disordered = overrides = probes_run = 0
+    multi_key = disordered = overrides = probes_run = rules_total = 0
     samples, sampled = [], set()
     for k, (c, i, m) in enumerate(zip(cases, impl, model)):
-        if k >= len(corpus) and isinstance(m, dict) and "res" in m:
-            key = (m["res"]["factory"], m["res"].get("load"), bool(m["stats"]["inherited"]))
-            if key not in sampled and len(samples) < 5:
-                sampled.add(key)
-                samples.append({"case": slim(c), "implementation": i, "model": m["res"]})
-    for c, i, m in zip(cases, impl, model):
         if not agrees(i, m):
-            bad.append((c, i, m))
+            bad.append((k, i, m))
         if not (isinstance(m, dict) and "stats" in m):
             continue
-        st = m["stats"]
-        res = m["res"]
-        v = "config rejected" if res["factory"] != "ok" else res["load"]
-        verdict[v] += 1
-        if st["reason"]:
-            reasons[st["reason"]] += 1
+        st, res = m["stats"], m["res"]
+        hist_len[min(len(c["rules"]), 6)] += 1
+        paths[c.get("path", "yaml")] += 1
+        modes[c["mode"]] += 1
+        d = c.get("default")
+        if d is not None:
+            spelled["default.execute:" + st["default_execute_spelled"]] += 1
+            spelled["default.on_error:" + st["default_on_error_spelled"]] += 1
         if isinstance(i, dict) and i.get("class"):
             classes[i["class"]] += 1
-        modes[c["mode"] + ("+forward_to" if c["rule"].get("forward_to") else "")] += 1
-        if v == "accepted":
-            probes_run += 6
-            for s in st["own"]:
-                stages_own[s] += 1
-            for s in st["inherited"]:
-                stages_inh[s] += 1
-            for s in st["cond_only"]:
-                cond_only[s] += 1
-            d = c.get("default")
-            bt_combo["default=%s own=%s" % ("absent" if d is None else d.get("bt"), c["rule"].get("bt"))] += 1
-        multi_key += 1 if st["multi_key"] else 0
-        disordered += 0 if st["ordered"] else 1
-        overrides += st["overrides"]
-        if res["factory"] == "ok" and ((v == "accepted" and st["own"] and st["inherited"]) or
-                                       (v == "rejected" and st["n_execute"] + st["n_on_error"] >= 1)):
+        if res["factory"] != "ok":
+            verdict["config rejected"] += 1
+            reasons["config:" + st["config_reason"]] += 1
+            continue
+        nt = False
+        for n_rule, (r, rs, load) in enumerate(zip(c["rules"], st["rules"], res["loads"])):
+            rules_total += 1
+            v = load["load"]
+            verdict[v] += 1
+            if rs["reason"]:
+                reasons[rs["reason"]] += 1
+            il = i["loads"][n_rule] if isinstance(i, dict) and n_rule < len(i.get("loads", [])) else {}
+            if isinstance(il, dict) and il.get("class"):
+                classes[il["class"]] += 1
+            spelled["execute:" + rs["execute_spelled"]] += 1
+            spelled["on_error:" + rs["on_error_spelled"]] += 1
+            for lst in ("execute", "on_error"):
+                for s in (r.get(lst) or []):
+                    if any(v2 in gen_factory.SHARED_IDS for v2 in s["keys"].values()):
+                        shared_refs += 1
+            multi_key += 1 if rs["multi_key"] else 0
+            disordered += 0 if rs["ordered"] else 1
+            overrides += rs["overrides"]
+            if v == "accepted":
+                probes_run += 6
+                for s in rs["own"]:
+                    stages_own[s] += 1
+                for s in rs["inherited"]:
+                    stages_inh[s] += 1
+                for s in rs["cond_only"]:
+                    cond_only[s] += 1
+                bt_combo["default=%s own=%s" % ("absent" if d is None else d.get("bt"), r.get("bt"))] += 1
+                nt = nt or bool(rs["own"] and rs["inherited"])
+            else:
+                nt = nt or rs["n_execute"] + rs["n_on_error"] >= 1
+            key = (v, bool(rs["inherited"]), len(c["rules"]) > 1)
+            if k >= len(corpus) and key not in sampled and len(samples) < 5:
+                sampled.add(key)
+                samples.append({"case": slim(c), "implementation": i, "model": res})
+        if nt:
             nontriv.add(vlib.case_hash(slim(c)))
     R.coverage.update({
         "evaluations": len(cases), "distinct_nontrivial": len(nontriv),
-        "rule": "a case = operation mode + default rule (absent / partial / complete / malformed) + one rule "
-                "definition, loaded through heimdall's real configuration loader, mechanism catalogue, rule factory, "
-                "rule set parser and repository, then six probe requests executed; non-trivial = the configuration "
-                "loads and either the rule is accepted with at least one own and at least one inherited stage, or "
-                "the rule is rejected and has at least one step; distinct by hash of the case without the catalogue",
-        "random_cases": n_random, "grid_cases": len(grids), "corpus_cases": len(corpus),
-        "default_rule_pool": len(pool),
+        "rule": "a case = operation mode + load path (YAML / JSON rule set document through the rule set parser, "
+                "kubernetes resource through the provider's conversion) + default rule (absent / partial / complete "
+                "/ malformed; lists spelled absent / null / [] / steps) + a history of 1..12 rule definitions, all "
+                "loaded by ONE real rule factory (configuration loader, mechanism catalogue with ids shared between "
+                "kinds, NewRuleFactory, rule set processor, repository), six probe requests per accepted rule; "
+                "non-trivial = the configuration loads and some rule of the history is accepted with at least one "
+                "own and one inherited stage, or is rejected and has at least one step; distinct by hash of the "
+                "case without the catalogue",
+        "rules_loaded": rules_total, "random_cases": n_random, "grid_cases": len(grids),
+        "corpus_cases": len(corpus), "default_rule_pool": len(pool),
+        "history_lengths": {str(k2): v2 for k2, v2 in sorted(hist_len.items())},
+        "load_paths": dict(paths), "modes": dict(modes), "list_spellings": dict(spelled),
+        "references_to_ids_shared_between_kinds": shared_refs,
         "verdicts": dict(verdict), "rejection_reasons_model": dict(reasons),
-        "error_classes_implementation": dict(classes), "modes": dict(modes),
+        "error_classes_implementation": dict(classes),
         "accepted_stage_own": dict(stages_own), "accepted_stage_inherited": dict(stages_inh),
         "accepted_stage_defined_only_by_conditional_steps": dict(cond_only),
         "accepted_backtracking_combinations": dict(bt_combo),
-        "cases_with_multi_key_steps": multi_key, "cases_with_disordered_execute": disordered,
+        "rules_with_multi_key_steps": multi_key, "rules_with_disordered_execute": disordered,
         "override_payloads": overrides, "probe_requests_executed": probes_run,
-        "samples": samples,
+        "samples": samples or [slim(cases[0])],
         "exhaustive": False,
         "small_scope": "every default rule of {absent, authenticator + each subset of {authorizer, finalizer, error "
                        "handler} x backtracking off/on, without authenticator} x every sequence of step kinds "
                        "{authenticator, authorizer, contextualizer, finalizer} up to length %d x with/without own "
-                       "error handler; default/own backtracking x mode x forward_to grid; every kind x condition "
-                       "class x override tag; every pair of reference keys in one step" % (3 if quick else 5),
+                       "error handler (histories of 12); default/own backtracking x mode x forward_to x load path; "
+                       "every kind x condition class x override tag; every pair of reference keys in one step; every "
+                       "spelling (absent/null/[]/steps) of execute x on_error x 8 default rules x load path x mode, "
+                       "forwards and backwards; every ordered pair of references to shared / kind-only ids with the "
+                       "first one used by the default rule, an earlier rule or an earlier step" % (3 if quick else 5),
     })
     R.assumptions += [
-        "the catalogue, the override payloads and the three condition literals used by the generator stand for all "
-        "mechanisms, overrides and conditions: the model treats the catalogue abstractly (known ids, accepted "
-        "override tags), the correspondence run exercises heimdall's generic/anonymous authenticators, remote "
-        "authorizer, generic contextualizer, header finalizer, redirect/default error handlers",
+        "the catalogue, the override payloads and the condition literals used by the generator stand for all "
+        "mechanisms, overrides and conditions: the model treats the catalogue abstractly (known ids per kind, "
+        "accepted override tags), the correspondence run exercises heimdall's generic/anonymous authenticators, "
+        "remote authorizer, generic contextualizer, header finalizer, redirect/default error handlers",
         "execution semantics of the probe requests (Model/FactoryProbe.lean: fallback between authenticators, "
         "conditions, first applicable error handler, backtracking to a less specific rule) are validated by the "
         "correspondence run, not proved; they belong to properties C01/C02/C04",
         "matching conditions, encoded-slash handling and rule hashing of CreateRule are not part of this property",
+        "the kubernetes load path is entered behind the API machinery: the resource is decoded with encoding/json "
+        "and converted by the provider's own toRuleSetConfiguration",
     ]
-    seen_raw, seen = set(), set()
-    for c, i, m in bad[:60]:
-        what, concrete = describe(c, i, m)
-        if what[:90] in seen_raw:
+    seen = set()
+    for k, i, m in bad[:80]:
+        what0, _, _ = describe(cases[k], i, m)
+        if (what0 or "")[:70] in seen:
             continue
-        seen_raw.add(what[:90])
-        sc = shrink(exe, c) if concrete else c
-        si, sm = verdicts(sc, exe)
-        what, concrete = describe(sc, si, sm)
-        if what in seen:
+        seen.add((what0 or "")[:70])
+        what, payload, no_input = report(R, exe, cases, k, i, m)
+        if what in [w for w, _, _ in R.violations]:
             continue
-        seen.add(what)
-        R.violation(what, {"case": sc, "impl": si, "model": sm.get("res") if isinstance(sm, dict) else sm,
-                           "spec": sm.get("spec") if isinstance(sm, dict) else None,
-                           "kind": "impl-vs-spec" if concrete else "impl-vs-model"}, no_input=not concrete)
+        R.violation(what, payload, no_input=no_input)
         if len(R.violations) >= 6:
             break
     if bad and not R.violations:     # never lose a disagreement to de-duplication
-        c, i, m = bad[0]
-        what, concrete = describe(c, i, m)
-        R.violation(what, {"case": c, "impl": i, "model": m}, no_input=not concrete)
+        k, i, m = bad[0]
+        what, payload, no_input = report(R, exe, cases, k, i, m)
+        R.violation(what, payload, no_input=no_input)
     R.coverage["disagreements_checked"] = len(bad)
     if not lean_ok:
         R.violation("theorems of Props/C14.lean no longer check: " + "; ".join(R.lean["failed"])[:600],
@@ -291,14 +405,19 @@ def replay(R, path):
         p = json.load(fh)
     harness_env(R)
     exe = vlib.step_harness(R)
-    c = p["case"]
-    if "cat" not in c:
-        c = dict(c, cat=gen_factory.CATALOGUE)
-    i, m = verdicts(c, exe)
+
+    def full(c):
+        return c if "cat" in c else dict(c, cat=gen_factory.CATALOGUE)
+    c = full(p["case"])
+    history = [full(h) for h in p.get("history", [])]
+    i = run_impl(exe, history + [c])[-1]
+    m = vlib.run_cases(vlib.driver_cmd(), [c])[0]
+    if history:
+        print(f"(replayed behind {len(history)} earlier case(s) in one process)")
     print("impl :", json.dumps(i))
     print("model:", json.dumps(m.get("res") if isinstance(m, dict) else m))
     print("spec :", json.dumps(m.get("spec") if isinstance(m, dict) else m))
     R.coverage.update({"obligations": 1, "discharged": 1, "checker_cmd": "replay", "trusted_base": []})
     if not agrees(i, m):
-        what, _ = describe(c, i, m)
-        R.violation("replay still differs: " + what, {"case": c, "impl": i, "model": m})
+        what, _, _ = describe(c, i, m)
+        R.violation("replay still differs: " + str(what), {"history": history, "case": c, "impl": i, "model": m})
